@@ -1,4 +1,220 @@
-/- driver stub (Query): replaced by the owner of this model group -/
+/- driver for the query model (C06, C07).  One line in, one line out.
+
+   find    <payload>   ->  "ok id,id,…" (corpus order) | "err <Exception>"      Project._find_job_ids
+   ref     <payload>   ->  per job "T" | "F" | "E:<Exception>", comma separated    reference evaluator
+   flat    <payload>   ->  "ok <wire of flattened, prefixed filter>" | "err …"     spelling normal form
+   parse   <payload>   ->  "ok <wire of parse_filter_arg(tokens)>" | "none" | "err …"
+   pstr    <payload>   ->  "ok <wire of dict(parse_filter(tokens as split str))>" | "err …"
+   cursor  <payload>   ->  answers of len / getitem / slice / contains on a given id list
+   groupby <payload>   ->  "ok label=id,id;label=id…" | "err …"
+
+   payload = one wire value, a mapping with the fields each verb needs:
+     jobs   [[id, sp, doc|null], …]     filter  <json>
+     rx     [[pattern, string, "T"|"F"|"E"], …]          re.search table
+     fstr   [[string, true|false], …]                    does float(string) succeed
+     near   [[value, a, rel|null, abs|null, "T"|"F"|"E"], …]   math.isclose table
+     toks   [string, …]   ints [[string, int|null]…]  floats [[string, float|null]…]
+     jsons  [[string, value | null, ok?]…]
+   A table entry that is missing answers like the exceptional outcome, never like a match. -/
+import Signac.Query
 import Signac.Wire
-open Signac
-def main : IO Unit := driverLoop (fun _ => "bad-op")
+open Signac Signac.Query
+
+def fieldOf (k : String) : JVal → Option JVal
+  | .obj kvs => lookupKV k kvs
+  | _ => none
+
+def arrOf : Option JVal → Option (List JVal)
+  | some (.arr xs) => some xs
+  | _ => none
+
+def strOf : JVal → Option String
+  | .str s => some s
+  | _ => none
+
+def parseJobs : List JVal → Option Corpus
+  | [] => some []
+  | .arr [.str i, sp, d] :: rest => do
+    let r ← parseJobs rest
+    let doc : Option JVal := match d with
+      | .null => none
+      | x => some x
+    pure (⟨i, sp, doc⟩ :: r)
+  | _ => none
+
+def rxTable (t : List JVal) (p s : String) : Option Bool :=
+  match t with
+  | [] => none
+  | .arr [.str p', .str s', .str r] :: rest =>
+    if p = p' ∧ s = s' then (if r = "T" then some true else if r = "F" then some false else none)
+    else rxTable rest p s
+  | _ :: rest => rxTable rest p s
+
+def fstrTable (t : List JVal) (s : String) : Bool :=
+  match t with
+  | [] => false
+  | .arr [.str s', .bool b] :: rest => if s = s' then b else fstrTable rest s
+  | _ :: rest => fstrTable rest s
+
+def wireOpt : Option JVal → String
+  | none => "-"
+  | some v => wire v
+
+def nearKey (v a : JVal) (r t : Option JVal) : String :=
+  wire v ++ "|" ++ wire a ++ "|" ++ wireOpt r ++ "|" ++ wireOpt t
+
+def optOfNull : JVal → Option JVal
+  | .null => none
+  | v => some v
+
+def nearTable (tb : List JVal) (v a : JVal) (r t : Option JVal) : Option Bool :=
+  match tb with
+  | [] => none
+  | .arr [v', a', r', t', .str res] :: rest =>
+    if nearKey v a r t = nearKey v' a' (optOfNull r') (optOfNull t') then
+      (if res = "T" then some true else if res = "F" then some false else none)
+    else nearTable rest v a r t
+  | _ :: rest => nearTable rest v a r t
+
+def paramsOf (pl : JVal) : Params :=
+  let rx := (arrOf (fieldOf "rx" pl)).getD []
+  let fs := (arrOf (fieldOf "fstr" pl)).getD []
+  let nr := (arrOf (fieldOf "near" pl)).getD []
+  { rx := rxTable rx, floatStr := fstrTable fs, isclose := nearTable nr }
+
+def showIds (c : Corpus) (r : List JobId) : String :=
+  ",".intercalate ((c.map (·.id)).filter (fun i => r.contains i))
+
+def showRes (c : Corpus) : Except Err (List JobId) → String
+  | .ok r => "ok " ++ showIds c r
+  | .error e => "err " ++ e.name
+
+def showBool : Except Err Bool → String
+  | .ok true => "T"
+  | .ok false => "F"
+  | .error e => "E:" ++ e.name
+
+mutual
+  def fltToJson : Flt → JVal
+    | .mk atoms n a o =>
+      .obj (flatten atoms
+        ++ (match n with | none => [] | some f => [("$not", fltToJson f)])
+        ++ (match a with | none => [] | some fs => [("$and", .arr (fltsToJson fs))])
+        ++ (match o with | none => [] | some fs => [("$or", .arr (fltsToJson fs))]))
+  def fltsToJson : List Flt → List JVal
+    | [] => []
+    | f :: fs => fltToJson f :: fltsToJson fs
+end
+
+def tokStrings : List JVal → Option (List String)
+  | [] => some []
+  | .str s :: rest => (tokStrings rest).map (s :: ·)
+  | _ => none
+
+def intTable (t : List JVal) (s : String) : Option Int :=
+  match t with
+  | [] => none
+  | .arr [.str s', .int i] :: rest => if s = s' then some i else intTable rest s
+  | _ :: rest => intTable rest s
+
+def floatTable (t : List JVal) (s : String) : Option JVal :=
+  match t with
+  | [] => none
+  | .arr [.str s', .flt n e r] :: rest => if s = s' then some (.flt n e r) else floatTable rest s
+  | _ :: rest => floatTable rest s
+
+def jsonTable (t : List JVal) (s : String) : Option JVal :=
+  match t with
+  | [] => none
+  | .arr [.str s', v, .bool true] :: rest => if s = s' then some v else jsonTable rest s
+  | _ :: rest => jsonTable rest s
+
+def cliParamsOf (pl : JVal) : CliParams :=
+  { pyInt := intTable ((arrOf (fieldOf "ints" pl)).getD []),
+    pyFloat := floatTable ((arrOf (fieldOf "floats" pl)).getD []),
+    jsonLoads := jsonTable ((arrOf (fieldOf "jsons" pl)).getD []) }
+
+def showLabelGroups (c : Corpus) : List (JVal × List JobId) → String
+  | [] => ""
+  | [(l, ids)] => canonLabel (canon l) ++ "=" ++ showIds c ids
+  | (l, ids) :: rest => canonLabel (canon l) ++ "=" ++ showIds c ids ++ ";" ++ showLabelGroups c rest
+
+def showOptIds : Option (List JobId) → String
+  | none => "IndexError"
+  | some ids => ",".intercalate ids
+
+def cursorAnswers (ids : List JobId) : List JVal → Option (List String)
+  | [] => some []
+  | .arr [.str "len"] :: rest => (cursorAnswers ids rest).map (toString (Cursor.len ids) :: ·)
+  | .arr [.str "get", .int i] :: rest =>
+    (cursorAnswers ids rest).map ((match Cursor.getitem ids i with
+      | some x => x
+      | none => "IndexError") :: ·)
+  | .arr [.str "slice", a, b, s] :: rest =>
+    let oi : JVal → Option (Option Int) := fun v => match v with
+      | .null => some none
+      | .int i => some (some i)
+      | _ => none
+    match oi a, oi b, oi s with
+    | some a, some b, some s =>
+      (cursorAnswers ids rest).map ((match Cursor.slice ids a b s with
+        | some xs => "[" ++ ",".intercalate xs ++ "]"
+        | none => "ValueError") :: ·)
+    | _, _, _ => none
+  | .arr [.str "in", .str j] :: rest =>
+    (cursorAnswers ids rest).map ((if Cursor.contains ids j then "T" else "F") :: ·)
+  | _ => none
+
+def stepQuery (line : String) : String :=
+  match tokens line with
+  | verb :: ts =>
+    match parseValue ts with
+    | some (pl, []) =>
+      let P := paramsOf pl
+      if verb = "find" ∨ verb = "ref" ∨ verb = "flat" ∨ verb = "groupby" then
+        match (arrOf (fieldOf "jobs" pl)).bind parseJobs, fieldOf "filter" pl with
+        | some c, some f =>
+          if verb = "find" then showRes c (findJobs P c f)
+          else if verb = "ref" then ",".intercalate (c.map (fun j => showBool (evalJob P j f)))
+          else if verb = "flat" then
+            if falsy f then "ok-all"
+            else match ofJson f with
+              | .ok g => "ok " ++ wire (fltToJson g) ++ (if includeDoc g then " +doc" else " -doc")
+              | .error e => "err " ++ e.name
+          else
+            match fieldOf "keys" pl, fieldOf "default" pl with
+            | some ks, some dflt =>
+              match groupKeysOf ks with
+              | some gk =>
+                match groupby P c f gk (optOfNull dflt) with
+                | .ok gs => "ok " ++ showLabelGroups c gs
+                | .error e => "err " ++ e.name
+              | none => "bad-value"
+            | _, _ => "bad-value"
+        | _, _ => "bad-value"
+      else if verb = "parse" ∨ verb = "pstr" then
+        match (arrOf (fieldOf "toks" pl)).bind tokStrings with
+        | some toks =>
+          let C := cliParamsOf pl
+          if verb = "parse" then
+            match parseFilterArg C toks with
+            | .ok none => "none"
+            | .ok (some v) => "ok " ++ wire v
+            | .error e => "err " ++ e.name
+          else
+            match parseSimpleDict C toks with
+            | .ok v => "ok " ++ wire v
+            | .error e => "err " ++ e.name
+        | none => "bad-value"
+      else if verb = "cursor" then
+        match (arrOf (fieldOf "ids" pl)).bind tokStrings, arrOf (fieldOf "ops" pl) with
+        | some ids, some ops =>
+          match cursorAnswers ids ops with
+          | some as => " ".intercalate as
+          | none => "bad-value"
+        | _, _ => "bad-value"
+      else "bad-op"
+    | _ => "bad-value"
+  | [] => "bad-op"
+
+def main : IO Unit := driverLoop stepQuery
